@@ -342,13 +342,22 @@ def real_lines_of(hist):
     return out, pre
 
 
-def run_real(binary, lines, timeout=600):
+def run_real(binary, lines, timeout=30):
     """stdout and stderr interleaved (the runtime's throw() prints on stderr and CONTINUES);
-    returns (answer lines, list of #fatal-lines seen before each answer, return code, tail)"""
-    p = subprocess.run([binary], input="\n".join(lines) + "\n", stdout=subprocess.PIPE, stderr=subprocess.STDOUT,
-                       text=True, timeout=timeout, errors="replace")
+    a corrupted map may also loop forever: the process is killed after `timeout` s and what it printed is kept.
+    returns (answer lines, list of #fatal-lines seen before each answer, return code, tail, pending fatals)"""
+    p = subprocess.Popen([binary], stdin=subprocess.PIPE, stdout=subprocess.PIPE, stderr=subprocess.STDOUT)
+    data = ("\n".join(lines) + "\n").encode()
+    try:
+        out, _ = p.communicate(data, timeout=timeout)
+        rc = p.returncode
+    except subprocess.TimeoutExpired:
+        p.kill()
+        out, _ = p.communicate()
+        rc = -9
+    text = out.decode("utf-8", "replace")
     answers, fatals, pend, extra = [], [], 0, []
-    for ln in p.stdout.split("\n"):
+    for ln in text.split("\n"):
         if " | h=" in ln:
             answers.append(ln)
             fatals.append(pend)
@@ -357,7 +366,9 @@ def run_real(binary, lines, timeout=600):
             pend += 1
         elif ln:
             extra.append(ln)
-    return answers, fatals, p.returncode, extra[-5:], pend
+    if rc == -9:
+        extra.append("killed after %d s (hang)" % timeout)
+    return answers, fatals, rc, extra[-5:], pend
 
 
 def parse_real(ln):
@@ -545,10 +556,7 @@ def load_hist(obj):
 # ------------------------------------------------------------------------------------------------ one history through both
 def run_history(binary, modeld, hist):
     rl, pre = real_lines_of(hist)
-    try:
-        real_ans, fatals, rc, extra, pend = run_real(binary, rl)
-    except subprocess.TimeoutExpired:
-        real_ans, fatals, rc, extra, pend = [], [], -9, ["timeout"], 0
+    real_ans, fatals, rc, extra, pend = run_real(binary, rl)
     ml, mpre = model_lines_of(hist, real_ans, pre)
     model_ans, mrc, merr = run_lines([modeld], ml)
     res = {"n": len(hist["ops"]), "rc": rc, "extra": extra, "fatal_lines": sum(fatals) + pend, "crashed": len(real_ans) < len(rl)}
@@ -603,10 +611,7 @@ def minimise(binary, hist, tag="general", limit=40):
     """shrink a spec-violating history: shortest prefix, then drop chunks of ops (delta debugging, bounded)"""
     def fails(h):
         rl, pre = real_lines_of(h)
-        try:
-            ra, _, _, _, _ = run_real(binary, rl, timeout=120)
-        except subprocess.TimeoutExpired:
-            return True
+        ra, _, _, _, _ = run_real(binary, rl, timeout=4)
         return any(b[2] == tag for b in judge(h, ra, pre))
     rl, pre = real_lines_of(hist)
     ra, _, _, _, _ = run_real(binary, rl)
@@ -713,7 +718,10 @@ def run(ctx, args):
             if key in seen_keys and ctx.match_known(key) is not None:
                 continue
             seen_keys.add(key)
-            hm = minimise(binary, h, tag) if len(h["ops"]) > 60 else h
+            if ctx.match_known(key) is not None or len(h["ops"]) <= 60:
+                hm = dict(h, ops=h["ops"][:i + 1])      # known class: its minimised replay is in corpus/C06
+            else:
+                hm = minimise(binary, h, tag)
             ctx.log("specification violated by the real code in %s at op %d: %s (+%d more of this class); minimised to %d ops" % (h["name"], i, msg, len(vs) - 1, len(hm["ops"])))
             ctx.report(key, "map runtime violates the finite-map specification: " + msg,
                        {"history": hist_json(hm), "violations": vs[:5], "fatal_error_lines": r["fatal_lines"], "source": h["name"]})
